@@ -33,9 +33,9 @@ func init() {
 }
 
 type exitPhis struct {
-	blk                                    *ssa.BasicBlock
-	err, written, bits, bitsLen, input     *ssa.Phi
-	loopHead                               *ssa.BasicBlock
+	blk                                *ssa.BasicBlock
+	err, written, bits, bitsLen, input *ssa.Phi
+	loopHead                           *ssa.BasicBlock
 }
 
 func findExitPhis(fn *ssa.Function) *exitPhis {
@@ -337,6 +337,36 @@ func ruleR04_2(p *Program, r *Report) {
 				continue
 			}
 			key := shortFn(fn) + "|" + lab.get(f.Name())
+			// is the error operand e of a return the result of this very call (directly, or through the phi of a
+			// single-exit `err = f(); ...; return err` on every edge the call can arrive by)?
+			isResultOfCall := func(e ssa.Value) bool {
+				cv := c.Value()
+				if e == nil || cv == nil {
+					return false
+				}
+				if e == ssa.Value(cv) {
+					return true
+				}
+				phi, ok := e.(*ssa.Phi)
+				if !ok {
+					return false
+				}
+				hit := false
+				for i, pred := range phi.Block().Preds {
+					from := c.Block() == pred || c.Block().Dominates(pred)
+					if !from {
+						// a predecessor the call cannot arrive by
+						if reach, _, _ := (PathQuery{Start: c, Target: func(x ssa.Instruction) bool { return x.Block() == pred }}).Find(fn); !reach {
+							continue
+						}
+					}
+					if phi.Edges[i] != ssa.Value(cv) {
+						return false
+					}
+					hit = true
+				}
+				return hit
+			}
 			isTest := func(in ssa.Instruction) bool {
 				switch x := in.(type) {
 				case *ssa.If:
@@ -364,7 +394,7 @@ func ruleR04_2(p *Program, r *Report) {
 					}
 				case *ssa.Return:
 					// `return f()` - the callee carries the obligation
-					if e := returnErr(x); e != nil && e == c.Value() {
+					if e := returnErr(x); isResultOfCall(e) {
 						return true
 					}
 				}
@@ -376,7 +406,7 @@ func ruleR04_2(p *Program, r *Report) {
 					return false
 				}
 				e := returnErr(ret)
-				if e != nil && e == c.Value() {
+				if isResultOfCall(e) {
 					return false // `return f()`: the callee's own returns carry the obligation
 				}
 				return e != nil && p.mayBeNil(fn, e, ret)
